@@ -45,7 +45,7 @@ def context(ix, around=None, limit=80):
     return brief(ix.events, limit)
 
 
-STOP_CLAUSES = ('start-after-stop', 'waited-for-normal-completion', 'not-cancelled',
+STOP_CLAUSES = ('verdict', 'run-never-ends', 'start-after-stop', 'waited-for-normal-completion', 'not-cancelled',
                 'cancelled-at-wrong-instant', 'no-shutdown-phase',
                 'shutdown-phase-begins-at-wrong-instant', 'run-ends-at-wrong-instant')
 
@@ -60,9 +60,19 @@ def phase_oracle(prop_id, cause, ix, trace, res, clauses=STOP_CLAUSES, results=T
         if focus is not None and not focus(sp['id'], None):
             continue
         an = phases.analyse(ix, sp['id'])
-        if an is None or an['cause'] != cause:
+        if an is None or cause not in an['causes']:
             continue
         out.append((sp, an))
+        # the run must report the cause that the trace shows (exact when there is no tie)
+        if an['causes'] == [cause] and an['rex'] is not None:
+            reported = ix.verdict(sp['id'])['kind']
+            if reported != cause and 'verdict' in clauses:
+                res.fail('%s:not-the-%s-verdict' % (prop_id, cause),
+                         "scheduler %s: what happened is %s at t=%s but the run reports %s "
+                         "(run-exit %s)" % (sp['id'], cause, an['tau'], reported,
+                                            {k: v for k, v in an['rex'].items()
+                                             if k in ('how', 'obj', 'fto', 'fc', 'why',
+                                                      'etype')}), context(ix))
         for clause, msg in an['findings']:
             if clause in clauses:
                 res.fail('%s:%s' % (prop_id, clause), msg, context(ix))
